@@ -196,6 +196,8 @@ type Mismatch struct {
 	Detail  M        `json:"detail,omitempty"`
 	SpecResp M       `json:"spec_resp,omitempty"`
 	Path    []M      `json:"path"` // events from the initial state to the source state of the edge
+	AfterImport bool `json:"after_import,omitempty"` // the edge was executed on the chain re-imported from genesis one step earlier
+	Diverged bool    `json:"diverged,omitempty"` // recorded below an edge whose post-state already differed (only acceptances the specification forbids are recorded there)
 }
 
 type Report struct {
@@ -274,16 +276,77 @@ func Walk(g *Graph, newImpl func() Impl, maxKeep int) *Report {
 		cut++
 	}
 	var mu sync.Mutex
+	// mismatches are kept per class (kind, event type, direction, failed guards, top-level fields): a flood of one
+	// class must not crowd out a single mismatch of another class that is attributed to a different property
+	perClass := map[string]int{}
+	classOf := func(m Mismatch) string {
+		tops := map[string]bool{}
+		for _, f := range m.Fields {
+			parts := strings.SplitN(f, ".", 3)
+			if len(parts) > 2 {
+				parts = parts[:2]
+			}
+			tops[strings.Join(parts, ".")] = true
+		}
+		var ts []string
+		for t := range tops {
+			ts = append(ts, t)
+		}
+		sort.Strings(ts)
+		fg := append([]string{}, m.Failed...)
+		sort.Strings(fg)
+		return fmt.Sprintf("%s|%s|%v|%v|%v|%v", m.Kind, eventType(m.Event), m.SpecOK, m.ImplOK, fg, ts)
+	}
 	add := func(m Mismatch) {
 		mu.Lock()
 		defer mu.Unlock()
 		rep.NMismatch++
-		if len(rep.Mismatches) < maxKeep {
+		c := classOf(m)
+		if perClass[c] < 4 && len(rep.Mismatches) < 10*maxKeep {
+			perClass[c]++
 			rep.Mismatches = append(rep.Mismatches, m)
 		}
 	}
 	// visit executes every edge leaving n; it descends along tree edges while the child is above
 	// the cut (top=true) or unconditionally (top=false).
+	// visitDiverged continues below an edge whose post-state differed from the specification's: the implementation is
+	// walked along the same tree, and only acceptances of events the specification rejects are recorded (a forged claim,
+	// a double payment or an unauthorised message accepted BECAUSE of the earlier divergence is a violation of that
+	// property in this history too).  Nothing else is compared there.
+	var visitDiverged func(n int, im Impl, top bool, budget *int)
+	visitDiverged = func(n int, im Impl, top bool, budget *int) {
+		isChild := map[*Edge]bool{}
+		for _, c := range children[n] {
+			isChild[c] = true
+		}
+		for _, ed := range g.Out[n] {
+			if *budget <= 0 {
+				return
+			}
+			*budget--
+			f := im.Fork()
+			ok, _, errStr := f.Exec(ed.E)
+			if ok && !ed.OK {
+				add(Mismatch{Kind: "result", Event: ed.E, SpecOK: false, ImplOK: true, Failed: ed.Failed, ImplErr: errStr, Path: pathTo(n), Diverged: true})
+			}
+			if ok && ed.OK && isChild[ed] && (!top || depth[ed.To] < cut) {
+				visitDiverged(ed.To, f, top, budget)
+			}
+		}
+	}
+	// one level below a diverged self-loop (a genesis round trip whose re-imported state differs)
+	visitDivergedFrom := func(n int, im Impl, path []M, budget *int) {
+		for _, ed := range g.Out[n] {
+			if *budget <= 0 {
+				return
+			}
+			*budget--
+			f := im.Fork()
+			if ok, _, errStr := f.Exec(ed.E); ok && !ed.OK {
+				add(Mismatch{Kind: "result", Event: ed.E, SpecOK: false, ImplOK: true, Failed: ed.Failed, ImplErr: errStr, Path: path, Diverged: true, AfterImport: true})
+			}
+		}
+	}
 	var visit func(n int, im Impl, top bool)
 	visit = func(n int, im Impl, top bool) {
 		isChild := map[*Edge]bool{}
@@ -335,6 +398,37 @@ func Walk(g *Graph, newImpl func() Impl, maxKeep int) *Report {
 					good = false
 				}
 			}
+			if ed.OK && ok && ed.To == n && eventType(ed.E) == "ExportImport" {
+				// a genesis round trip that leaves the abstract state unchanged: every event enabled here is executed once more
+				// on the re-imported chain (one step; C16: the new chain answers every later message as the original would)
+				if good {
+					for _, ed2 := range g.Out[n] {
+						if eventType(ed2.E) == "ExportImport" {
+							continue
+						}
+						f2 := f.Fork()
+						ok2, resp2, err2 := f2.Exec(ed2.E)
+						p2 := append(pathTo(n), ed.E)
+						if ok2 != ed2.OK {
+							add(Mismatch{Kind: "result", Event: ed2.E, SpecOK: ed2.OK, ImplOK: ok2, Failed: ed2.Failed, ImplErr: err2, Path: p2, AfterImport: true})
+						} else if ok2 {
+							if d := absx.Diff(ed2.Resp, resp2); len(d) > 0 {
+								add(Mismatch{Kind: "resp", Event: ed2.E, SpecOK: true, ImplOK: true, Fields: d, Detail: M{"spec": ed2.Resp, "impl": resp2}, Path: p2, AfterImport: true})
+							}
+							if d := absx.Diff(g.States[ed2.To], f2.Project()); len(d) > 0 {
+								add(Mismatch{Kind: "state", Event: ed2.E, SpecOK: true, ImplOK: true, Fields: d, SpecResp: ed2.Resp, Path: p2, AfterImport: true})
+							}
+						}
+						mu.Lock()
+						rep.Replayed++
+						rep.ByType["afterImport:"+eventType(ed2.E)]++
+						mu.Unlock()
+					}
+				} else {
+					budget := 2000
+					visitDivergedFrom(n, f, append(pathTo(n), ed.E), &budget)
+				}
+			}
 			if isChild[ed] && (!top || depth[ed.To] < cut) {
 				if good {
 					visit(ed.To, f, top)
@@ -342,6 +436,10 @@ func Walk(g *Graph, newImpl func() Impl, maxKeep int) *Report {
 					mu.Lock()
 					rep.Skipped++
 					mu.Unlock()
+					if ok && ed.OK {
+						budget := 20000
+						visitDiverged(ed.To, f, top, &budget)
+					}
 				}
 			}
 		}
@@ -389,7 +487,13 @@ func Walk(g *Graph, newImpl func() Impl, maxKeep int) *Report {
 						}
 					}
 					if okPath && absx.Canon(im.Project()) != absx.Canon(g.States[u.node]) {
-						okPath = false
+						// the path ran but ended in a different state (reported by the unit that owns the diverging edge)
+						mu.Lock()
+						rep.Skipped++
+						mu.Unlock()
+						budget := 20000
+						visitDiverged(u.node, im, false, &budget)
+						continue
 					}
 				}
 				if !okPath {
